@@ -3,7 +3,9 @@ package main
 import (
 	"fmt"
 	"go/types"
+	"regexp"
 	"strings"
+	"sync"
 )
 
 // TypeReg maps Go types to SMT sorts, declares struct datatypes and type tags.
@@ -29,22 +31,27 @@ type structInfo struct {
 }
 
 // typeId: a short, unique, SMT-safe identifier of a Go type.
+var (
+	typeIdMu  sync.Mutex
+	typeIdMap = map[string]string{}
+	typeIdUse = map[string]bool{}
+)
+
+// The registry is process-wide so that component names agree between executors.
 func (r *TypeReg) typeId(t types.Type) string {
 	t = unalias(t)
 	key := types.TypeString(t, nil)
-	if r.typeIds == nil {
-		r.typeIds = map[string]string{}
-		r.usedIds = map[string]bool{}
-	}
-	if id, ok := r.typeIds[key]; ok {
+	typeIdMu.Lock()
+	defer typeIdMu.Unlock()
+	if id, ok := typeIdMap[key]; ok {
 		return id
 	}
 	id := shortTypeName(t)
-	for n := 2; r.usedIds[id]; n++ {
+	for n := 2; typeIdUse[id]; n++ {
 		id = fmt.Sprintf("%s_%d", shortTypeName(t), n)
 	}
-	r.usedIds[id] = true
-	r.typeIds[key] = id
+	typeIdUse[id] = true
+	typeIdMap[key] = id
 	return id
 }
 
@@ -113,6 +120,12 @@ func shortTypeName(t types.Type) string {
 	return s
 }
 
+var (
+	structMu   sync.Mutex
+	structAll  = map[string]*structInfo{} // canonical type string -> info (process-wide: names agree between executors)
+	structByNm = map[string]*structInfo{}
+)
+
 func (r *TypeReg) structOf(t types.Type) *structInfo {
 	t = unalias(t)
 	key := types.TypeString(t, nil)
@@ -122,17 +135,48 @@ func (r *TypeReg) structOf(t types.Type) *structInfo {
 	if si, ok := r.structs[key]; ok {
 		return si
 	}
-	st := t.Underlying().(*types.Struct)
-	si := &structInfo{id: len(r.structs), st: st, typ: t}
-	si.name = fmt.Sprintf("S%d_%s", si.id, shortTypeName(t))
-	si.ctor = "mk" + si.name
-	r.structs[key] = si
-	for i := 0; i < st.NumFields(); i++ {
-		si.fields = append(si.fields, fmt.Sprintf("%s_f%d_%s", si.name, i, st.Field(i).Name()))
-		si.fsorts = append(si.fsorts, r.sortOf(st.Field(i).Type()))
+	structMu.Lock()
+	si, ok := structAll[key]
+	if !ok {
+		st := t.Underlying().(*types.Struct)
+		si = &structInfo{id: len(structAll), st: st, typ: t}
+		si.name = fmt.Sprintf("S%d_%s", si.id, shortTypeName(t))
+		si.ctor = "mk" + si.name
+		structAll[key] = si
+		structByNm[si.name] = si
+		for i := 0; i < st.NumFields(); i++ {
+			si.fields = append(si.fields, fmt.Sprintf("%s_f%d_%s", si.name, i, st.Field(i).Name()))
+		}
 	}
+	structMu.Unlock()
+	r.structs[key] = si
+	// field sorts (registers by-value dependencies in this executor first)
+	fs := make([]string, si.st.NumFields())
+	for i := 0; i < si.st.NumFields(); i++ {
+		fs[i] = r.sortOf(si.st.Field(i).Type())
+	}
+	structMu.Lock()
+	if si.fsorts == nil {
+		si.fsorts = fs
+	}
+	structMu.Unlock()
 	r.order = append(r.order, si) // appended after its by-value dependencies
 	return si
+}
+
+var structNameRe = regexp.MustCompile(`S[0-9]+_[A-Za-z0-9_]+`)
+
+// useSort makes sure every struct datatype mentioned in a sort string (possibly produced by another
+// executor) is declared by this one.
+func (r *TypeReg) useSort(sort string) {
+	for _, nm := range structNameRe.FindAllString(sort, -1) {
+		structMu.Lock()
+		si := structByNm[nm]
+		structMu.Unlock()
+		if si != nil {
+			r.structOf(si.typ)
+		}
+	}
 }
 
 func (r *TypeReg) datatypeDecls() string {
